@@ -395,6 +395,55 @@ fn main() {
     }
     rep.eval(EVALS.with(|c| c.replace(0)));
 
+    // ---- noise: long contiguous runs. 2^k chunks of 2^24 frames, chunk i from seed base + i*2^24,
+    // so that (seed + frame index) sweeps a contiguous range of 2^(24+k) values: 2^31 in quick
+    // (every residue modulo 2^31), 2^35 in thorough. Range only; the extremes seen are reported.
+    {
+        let log2_chunks: u32 = cli.t(7, 11);
+        let base: u64 = if cli.seed == 0 { 0 } else { vmon::rng::mix64(cli.seed) };
+        const L: u64 = 1 << 24;
+        let reps = vmon::par_for(cli.threads, 1u64 << log2_chunks, 1, |_| (Report::new("C17", "w"), f64::INFINITY, f64::NEG_INFINITY), |st, i| {
+            let (rep, lo, hi) = st;
+            let seed = base.wrapping_add(i * L);
+            let mut s = signal::noise(seed);
+            let r = vmon::catch(std::panic::AssertUnwindSafe(|| {
+                let (mut l, mut h) = (f64::INFINITY, f64::NEG_INFINITY);
+                let mut bad: Option<(u64, f64)> = None;
+                for n in 0..L {
+                    let x = s.next();
+                    if !(x >= -1.0 && x <= 1.0) && bad.is_none() {
+                        bad = Some((n, x));
+                    }
+                    l = l.min(x);
+                    h = h.max(x);
+                }
+                (l, h, bad)
+            }));
+            match r {
+                Ok((l, h, bad)) => {
+                    *lo = lo.min(l);
+                    *hi = hi.max(h);
+                    if let Some((n, x)) = bad {
+                        viol(rep, "noise|amplitude_out_of_range", format!("noise({}) frame {} = {:e} (|excess| {:e})", seed, n, x, x.abs() - 1.0), format!("kind=noise;seed={};frames={}", seed.wrapping_add(n.saturating_sub(2)), 8));
+                    }
+                }
+                Err(m) => viol(rep, "noise|panic", format!("noise({}) panicked within 2^24 frames: {}", seed, m), format!("kind=noise;seed={};frames={}", seed, L)),
+            }
+            rep.eval(L);
+            rep.nontrivial_by_construction(1);
+        });
+        let (mut lo, mut hi) = (f64::INFINITY, f64::NEG_INFINITY);
+        for (r, l, h) in reps {
+            rep.merge(r);
+            lo = lo.min(l);
+            hi = hi.max(h);
+        }
+        rep.oblige("noise_long_run_frames", 1 << 30);
+        rep.hit_n("noise_long_run_frames", L << log2_chunks);
+        rep.note(format!("noise long runs: {} chunks of 2^24 frames, seeds {}+i*2^24: observed minimum {:e}, maximum {:e} (range limit [-1, 1])", 1u64 << log2_chunks, base, lo, hi));
+        rep.exhaustive(format!("white noise: (seed + frame index) over the contiguous range [{}, {}+2^{}), i.e. every residue modulo 2^31, range check on every sample", base, base, 24 + log2_chunks));
+    }
+
     // ---- simplex noise dense scan: all 256 gradient cells (+ wrap)
     simplex_scan(&mut rep, cli.t(10, 15), 258);
     rep.eval(EVALS.with(|c| c.replace(0)));
